@@ -7,7 +7,7 @@ import ast, os, shutil, subprocess, sys, tempfile
 
 HERE = os.path.dirname(os.path.dirname(os.path.abspath(__file__)))
 sys.path.insert(0, HERE)
-from sa.canon import canonicalise, literal_tables  # noqa: E402
+from sa.canon import canonicalise, literal_tables, module_defs  # noqa: E402
 
 base = tempfile.mkdtemp(prefix="vcanon.")
 try:
@@ -29,9 +29,10 @@ try:
                     rel = rel[:-1]
                 trees[".".join(rel)] = (path, ast.parse(open(path).read()))
     tables = {name: t for name, (_, tree) in trees.items() if (t := literal_tables(tree))}
+    defs = {name: module_defs(tree) for name, (_, tree) in trees.items()}
     total = {}
     for name, (path, tree) in trees.items():
-        for k, v in canonicalise(tree, tables).items():
+        for k, v in canonicalise(tree, tables, defs, name, path.endswith('__init__.py')).items():
             total[k] = total.get(k, 0) + v
         open(path, "w").write(ast.unparse(tree) + "\n")
     print("rewrites applied:", {k: v for k, v in sorted(total.items()) if v})
